@@ -55,7 +55,7 @@ def gen(rng, tier, idx):
 # (a) round trip of arbitrary grids across decompositions
 # ---------------------------------------------------------------------------
 def gen_roundtrip(rng):
-    c = c01.gen(rng, 'quick', 0)
+    c = c01.gen_base(rng, 'quick', 0)
     if c['dtype'] == 'int64':
         c['dtype'] = 'float64'
     ndim = len(c['shape'])
@@ -688,3 +688,13 @@ def shrink(case):
             yield dict(case, M=case['M'] - 1)
         if case['save'] > 1:
             yield dict(case, save=case['save'] - 1)
+
+
+_gen_plain = gen
+
+
+def gen(rng, tier, idx):
+    case = _gen_plain(rng, tier, idx)
+    if case['kind'] in ('roundtrip', 'restart'):
+        cm.maybe_bystanders(rng, case['sched'], case['P'])
+    return case
